@@ -449,6 +449,21 @@ def _follow(fn, l, depth):
     real = [u for u in uses if u[2] != "drop"]
     if not real:
         return {"kind": "dropped"}
+    # `res.is_ok()` / `res.is_err()` look at the Result through a reference.  When every use of the Result is such
+    # a probe, the error value itself is never looked at: the Result is discarded through the probe.
+    probes = []
+    others = []
+    for u in real:
+        (ubb, ui, what, x) = u
+        if what == "ref" and ui != "t" and not x["place"]["proj"]:
+            r = x["place"]["local"]
+            ru = [w for w in local_uses(fn, r) if w[2] != "drop"]
+            if ru and all(w[1] == "t" and w[2].startswith("arg") and (callee_name(w[3]) or "").split("::")[-1] in ("is_ok", "is_err") and "result::Result" in (callee_name(w[3]) or "") for w in ru):
+                probes.append(ru[0])
+                continue
+        others.append(u)
+    if probes and not others:
+        return {"kind": "discarded", "detail": (callee_name(probes[0][3]) or "").split("::")[-1], "bb": probes[0][0]}
     # discriminant + switch
     for (ubb, ui, what, x) in real:
         if what == "discriminant":
